@@ -121,6 +121,7 @@ EDIT_KINDS = ['add-matching', 'add-nonmatching', 'remove-matching', 'rename-matc
               'drop-submodule', 'edit-toolchain', 'add-header', 'remove-header', 'add-data',
               'add-extra', 'noop', 'add-plugin', 'add-plugin-filtered-out', 'remove-plugin',
               'add-empty-dir', 'fill-empty-dir', 'touch-input']
+# (plus 'drop-searches' and 'edit-late', which only occur as a directed tail of a history)
 
 
 def gen_history(rng, project, n):
@@ -140,6 +141,11 @@ def gen_history(rng, project, n):
         i = rng.randrange(len(hist))
         hist[i:i + 1] = ['add-empty-dir'] + [rng.choice(EDIT_KINDS) for _ in range(rng.randint(0, 2))] \
             + ['fill-empty-dir']
+    if rng.random() < 0.4:
+        # the project stops searching altogether and gains a script that was not an input of
+        # the regeneration rule before; later only that script is edited
+        hist += ['drop-searches', 'edit-late'] + \
+            [rng.choice(['touch-input', 'edit-late', 'noop', 'edit-bfg-comment'])] + ['edit-late']
     return hist
 
 
@@ -245,7 +251,23 @@ class Live:
     def touch(self, rel):
         proj.bump(os.path.join(self.src, rel), self.bld)
 
+    def plain_bfg(self):
+        feats = self.case['project']['feats']
+        L = ["project('p', '1.0', find_exclude=['*~'])",
+             "prog = executable('prog', files=['src/main.c'])",
+             "default(prog)", "submodule('late')"]
+        if self.state['has_sub']:
+            L.append("submodule('sub')")
+        if feats['options']:
+            L.append("if argv.flavor == 'x': pass")
+        if feats['pkgconf']:
+            L.append("lib = static_library('p', files=['src/main.c'])")
+            L.append("pkg_config('p', version='1.0', libs=[lib])")
+        return '\n'.join(L + list(self.bfg_extra)) + '\n'
+
     def rewrite_bfg(self):
+        if self.state.get('no_search'):
+            return self.write('build.bfg', self.plain_bfg())
         self.write('build.bfg', initial_bfg(self.case['project']['feats'], self.bfg_extra)
                    if self.state['has_sub'] or not self.case['project']['feats']['submodule']
                    else initial_bfg(self.case['project']['feats'], self.bfg_extra)
@@ -258,6 +280,27 @@ class Live:
         feats = self.case['project']['feats']
         srcs = sorted(f for f in os.listdir(os.path.join(self.src, 'src')) if f.endswith('.c')
                       and f != 'main.c')
+        if kind == 'drop-searches':
+            if self.state.get('no_search'):
+                return None, '', False, False
+            self.state['no_search'] = True
+            self.write('late/build.bfg', "copy_file('late.out', 'late.in')\n")
+            self.write('late/late.in', 'late\n')
+            self.rewrite_bfg()
+            return kind, '', True, False
+        if kind == 'edit-late':
+            if not self.state.get('no_search'):
+                return None, '', False, False
+            self.write('late/build.bfg', "copy_file('late.out', 'late.in')\n"
+                                         "copy_file('late%d.out', 'late.in')\n" % k)
+            return kind, 'late/build.bfg', True, False
+        if self.state.get('no_search') and kind in (
+                'add-matching', 'add-nonmatching', 'add-extra', 'remove-matching',
+                'rename-matching', 'add-dir-matching', 'remove-dir', 'add-header',
+                'remove-header', 'add-data', 'add-plugin', 'add-plugin-filtered-out',
+                'remove-plugin', 'add-empty-dir', 'fill-empty-dir'):
+            # nothing is searched any more: the file operations below would change nothing
+            return None, '', False, False
         if kind == 'add-matching':
             self.write('src/n%d.c' % k, 'int n%d;\n' % k)
             if feats['nocache']:
